@@ -31,12 +31,21 @@ def sh(cmd, **kw):
 
 
 def run_demo():
-    demo = next((p for p in ("demo.py", ) if (src / p).exists()), None)
-    if demo is None:
-        return None, "no demo.py"
-    env = dict(os.environ, PYTHONPATH=str(wt / "src"), TF_CPP_MIN_LOG_LEVEL="3")
-    r = subprocess.run(["/venv/bin/python", str(src / demo)], cwd=wt, env=env,
-                       capture_output=True, text=True, timeout=600)
+    env = dict(os.environ, PYTHONPATH=str(wt / "src"), TF_CPP_MIN_LOG_LEVEL="3",
+               CARGO_NET_OFFLINE="true")
+    if (src / "demo.sh").exists():
+        # shell demonstrations locate the tree relative to themselves
+        dst = wt / "out" / mk
+        if dst.exists():
+            shutil.rmtree(dst)
+        shutil.copytree(src, dst)
+        r = subprocess.run(["sh", str(dst / "demo.sh")], cwd=wt, env=env,
+                           capture_output=True, text=True, timeout=3600)
+    elif (src / "demo.py").exists():
+        r = subprocess.run(["/venv/bin/python", str(src / "demo.py")], cwd=wt,
+                           env=env, capture_output=True, text=True, timeout=600)
+    else:
+        return None, "no demo"
     tail = (r.stdout + r.stderr).strip().splitlines()[-3:]
     return r.returncode, " | ".join(tail)[-400:]
 
@@ -54,7 +63,7 @@ meta = {"property": pid, "variant": mk, "repo_head": head,
 try:
     rc0, out0 = run_demo()
     meta["demo_on_pristine"] = {"exit": rc0, "tail": out0}
-    ap = sh(f"git -C {wt} apply {src / 'patch.diff'}")
+    ap = sh(f"git -C {wt} apply --exclude='out/*' {src / 'patch.diff'}")
     meta["patch_applies"] = ap.returncode == 0
     if ap.returncode != 0:
         meta["patch_error"] = ap.stderr[-300:]
@@ -93,7 +102,7 @@ finally:
     sh(f"git -C /repo worktree remove --force {wt}")
     shutil.rmtree(wt, ignore_errors=True)
 dest.mkdir(parents=True, exist_ok=True)
-for f in ("patch.diff", "demo.py", "notes.md"):
+for f in ("patch.diff", "demo.py", "demo.sh", "demo_test.rs", "notes.md"):
     if (src / f).exists():
         shutil.copy(src / f, dest / f)
 (dest / "meta.json").write_text(json.dumps(meta, indent=1))
